@@ -12,13 +12,13 @@ import (
 
 func c20Gen(r *rand.Rand, tier string) []spec.Case {
 	var out []spec.Case
-	rounds := 30
+	rounds := 36
 	if tier == "thorough" {
 		rounds = 600
 	}
 	kinds := []string{"mux", "grpc", "grpcmux", "client-netrpc", "client-grpc", "client-grpcmux"}
 	for i := 0; i < rounds; i++ {
-		c := spec.C20Case{Kind: kinds[i%len(kinds)], G: []int{4, 16, 64}[(i/len(kinds))%3], Ops: 6, ShutdownRace: i%3 == 2, Seed: r.Int63n(1 << 30)}
+		c := spec.C20Case{Kind: kinds[i%len(kinds)], G: []int{4, 16, 64}[(i/len(kinds))%3], Ops: 6, ShutdownRace: r.Intn(3) == 0, Seed: r.Int63n(1 << 30)}
 		if c.G == 64 {
 			c.Ops = 3
 		}
